@@ -760,6 +760,38 @@ func packSizeEveryMember(r *core.Run, rule string) {
 		}
 	})
 	r.Check(ok, rule, key, test.Pos(), "no path through an iteration bypasses the PACKSIZE test", "an iteration of the member loop can complete without testing the member for TDS_ENV_PACKSIZE (a shortcut skips members): a packet size the server announced is not applied and the connection keeps packetising with the old size")
+	// ... and a PACKSIZE member either sets Conn.packetSize or ends the handling with an error: no announced size is
+	// silently left out (a lower bound, a "changed only" test)
+	fPS := p.Field("tds", "Conn", "packetSize")
+	applied := true
+	var where token.Pos
+	core.EnumPaths(test.Block().Succs[0], func(b *ssa.BasicBlock) bool { return b == h }, nil, 4000, func(pa core.Path, ended bool) {
+		stored := false
+		for _, b := range pa.Blocks {
+			for _, in := range b.Instrs {
+				if st, ok := in.(*ssa.Store); ok {
+					if fa, ok := st.Addr.(*ssa.FieldAddr); ok && core.FieldOfAddr(fa) == fPS {
+						stored = true
+					}
+				}
+			}
+		}
+		if stored {
+			return
+		}
+		last := pa.Blocks[len(pa.Blocks)-1]
+		if ret, ok := last.Instrs[len(last.Instrs)-1].(*ssa.Return); ok {
+			rv := core.RetVals(ret)
+			if !core.IsNil(rv[len(rv)-1]) {
+				return
+			}
+		}
+		if ended || len(last.Succs) == 0 {
+			applied = false
+			where = last.Instrs[len(last.Instrs)-1].Pos()
+		}
+	})
+	r.Check(applied, rule, "handleSpecialPackage: a PACKSIZE member sets Conn.packetSize or fails", test.Pos(), "every path from the PACKSIZE test to the next member stores Conn.packetSize or returns an error", "a PACKSIZE member can be handled without Conn.packetSize being set and without an error ("+p.Pos(where)+"): the size the server announced is not the size in force, packets are built larger than the server accepts")
 }
 
 // c11EEDReadOnly: R11.9.
